@@ -6,11 +6,20 @@
    no line holds another of str.splitlines' break characters. *)
 From Coq Require Import ZArith List Bool Lia.
 From Mistletoe Require Import Base.Sx Base.PyStr Base.PyText Gen.GenTables Gen.GenConfig Gen.GenEscapes Model.Fillers Model.Tree Model.CoreTokens Model.Block Model.Build
-     Model.DocLines Model.HtmlRenderer Model.Parser Proofs.PlainProse Proofs.Prose Proofs.ProseLines Proofs.ListLaw Proofs.FenceLaw Spec.Fragment Proofs.InertProse Proofs.FragmentP Proofs.FragmentDoc Proofs.EmphSimple Proofs.EmphSentence Proofs.RefSentence Proofs.LinkSentence.
+     Model.DocLines Model.HtmlRenderer Model.Parser Proofs.PlainProse Proofs.Prose Proofs.ProseLines Proofs.ListLaw Proofs.FenceLaw Spec.Fragment Proofs.InertProse Proofs.FragmentP Proofs.FragmentDoc Proofs.EmphSimple Proofs.EmphSentence Proofs.RefSentence Proofs.LinkSentence Proofs.MixPhrases.
 Import ListNotations.
 Local Open Scope Z_scope.
 
-Definition is_fpara (t : ftree) : bool := match t with FPara _ _ _ | FEm _ _ _ _ _ _ | FLink _ _ _ _ _ => true | _ => false end.
+Definition is_fpara (t : ftree) : bool := match t with FPara _ _ _ | FEm _ _ _ _ _ _ | FLink _ _ _ _ _ | FSent _ _ _ => true | _ => false end.
+
+(* the HTML of one segment of a sentence: the phrase or the link, then the text after it *)
+Definition seg_html (o : hopts) (g : mseg) : str :=
+  match g with
+  | MEm ch k w t =>
+    let tag := if Z.of_nat (S k) =? 2 then $"strong" else $"em" in
+    $"<" ++ tag ++ $">" ++ escape_html_text o w ++ $"</" ++ tag ++ $">" ++ escape_html_text o t
+  | MLk w d t => $"<a href=" ++ [34] ++ fill o html_link_target d ++ [34] ++ $">" ++ escape_html_text o w ++ $"</a>" ++ escape_html_text o t
+  end.
 Definition first_fpara (ts : list ftree) : bool := match ts with t :: _ => is_fpara t | [] => false end.
 Definition last_fpara (ts : list ftree) : bool := match rev ts with t :: _ => is_fpara t | [] => false end.
 
@@ -52,6 +61,9 @@ Fixpoint html_f (o : hopts) (tight : bool) (t : ftree) : str :=
     if tight then inner else $"<p>" ++ inner ++ $"</p>"
   | FLink c0 pre w dest post =>      (* the target goes through the renderer's own filler for link targets (percent-encoding, then HTML escaping) *)
     let inner := escape_html_text o (c0 :: pre) ++ $"<a href=" ++ [34] ++ fill o html_link_target dest ++ [34] ++ $">" ++ escape_html_text o w ++ $"</a>" ++ escape_html_text o post in
+    if tight then inner else $"<p>" ++ inner ++ $"</p>"
+  | FSent c0 t0 gs =>
+    let inner := escape_html_text o (c0 :: t0) ++ concat (map (seg_html o) gs) in
     if tight then inner else $"<p>" ++ inner ++ $"</p>"
   end
 with html_lis (o : hopts) (tight : bool) (t : ftree) : str :=      (* the items of the rest of a list *)
@@ -99,7 +111,7 @@ Proof. induction ts as [|t r IH]; [reflexivity|]. cbn [tok_seq map blank_tok app
 
 Lemma tok_of_chain_is_list md : forall t, is_item t = true -> wf_b t = true -> exists s lo items, tok_of md t = List s lo items.
 Proof.
-  induction t as [| | | mk pad ts | mk pad ts bl next IH | | | | ]; intros Hi Hw; try discriminate.
+  induction t as [| | | mk pad ts | mk pad ts bl next IH | | | | | ]; intros Hi Hw; try discriminate.
   - cbn [tok_of]. eexists. eexists. eexists. reflexivity.
   - cbn [wf_b] in Hw. repeat rewrite andb_true_iff in Hw. destruct Hw as [[[_ Hin] _] Hwn].
     destruct (IH Hin Hwn) as (s & lo & items & E). cbn [tok_of]. rewrite E. eexists. eexists. eexists. reflexivity.
@@ -107,7 +119,7 @@ Qed.
 
 Lemma is_para_tok t : wf_b t = true -> match tok_of false t with Paragraph _ => true | _ => false end = is_fpara t.
 Proof.
-  intros Hw. destruct t as [ | | | |mk pad ts bl next| | | | ]; try reflexivity.
+  intros Hw. destruct t as [ | | | |mk pad ts bl next| | | | | ]; try reflexivity.
   destruct (tok_of_chain_is_list false (FMore mk pad ts bl next) eq_refl Hw) as (s & lo & items & ->). reflexivity.
 Qed.
 
@@ -209,6 +221,41 @@ Proof.
     rewrite !serialize_app, E. cbn. rewrite ?app_nil_r, <- ?app_assoc. reflexivity.
 Qed.
 
+Lemma ser_raw_if o sup (t : str) : serialize (flat_map (render o sup false) (raw_if t)) = escape_html_text o t.
+Proof.
+  destruct t as [|z p]; [|unfold raw_if; cbn [flat_map render]; rewrite app_nil_r; change (fill o GenEscapes.html_raw_text (z :: p)) with (escape_html_text o (z :: p)); unfold serialize; cbn [flat_map ser_item]; apply app_nil_r].
+  cbn [raw_if flat_map serialize]. unfold serialize, escape_html_text, apply_chain. cbn [flat_map].
+  induction GenEscapes.html_text_chain as [|[[g x] r] c IH]; [reflexivity|]. cbn [fold_left]. destruct (guard_on o g); exact IH.
+Qed.
+
+Lemma html_segs o sup : forall gs, serialize (flat_map (render o sup false) (mix_toks gs)) = concat (map (seg_html o) gs).
+Proof.
+  induction gs as [|[ch k w t|w d t] r IH]; [reflexivity| |].
+  - cbn [mix_toks flat_map map concat]. fold (mix_toks r). rewrite flat_map_app, serialize_app, IH. f_equal.
+    cbn [seg_html]. unfold serialize. destruct (Z.of_nat (S k) =? 2); cbn [flat_map render app]; change (fill o GenEscapes.html_raw_text w) with (escape_html_text o w);
+      change (fill o GenEscapes.html_raw_text t) with (escape_html_text o t); unfold wrap; cbn [flat_map ser_item app]; cbn; rewrite ?app_nil_r, <- ?app_assoc; reflexivity.
+  - cbn [mix_toks flat_map map concat]. fold (mix_toks r). rewrite flat_map_app, serialize_app, IH. f_equal.
+    change (ilink_of w d :: raw_if t) with ([ilink_of w d] ++ raw_if t). rewrite flat_map_app, serialize_app, ser_raw_if.
+    cbn [seg_html]. unfold serialize, ilink_of. cbn [flat_map render l_target l_title title_attr]. unfold wrap.
+    cbn [flat_map ser_item app]. change (fill o GenEscapes.html_raw_text w) with (escape_html_text o w). cbn. rewrite ?app_nil_r, <- ?app_assoc. reflexivity.
+Qed.
+
+Lemma html_sent o sup c0 t0 gs :
+  serialize (render o sup false (tok_of false (FSent c0 t0 gs))) = html_f o sup (FSent c0 t0 gs).
+Proof.
+  cbn [tok_of html_f]. cbv zeta.
+  assert (E : serialize (flat_map (render o sup false) (RawText (c0 :: t0) :: mix_toks gs)) = escape_html_text o (c0 :: t0) ++ concat (map (seg_html o) gs)).
+  { change (RawText (c0 :: t0) :: mix_toks gs) with ([RawText (c0 :: t0)] ++ mix_toks gs). rewrite flat_map_app. unfold serialize. rewrite flat_map_app.
+    fold (serialize (flat_map (render o sup false) (mix_toks gs))). rewrite html_segs.
+    cbn [flat_map render app]. change (fill o GenEscapes.html_raw_text (c0 :: t0)) with (escape_html_text o (c0 :: t0)). cbn [flat_map ser_item app]. rewrite app_nil_r. reflexivity. }
+  destruct sup.
+  - cbn [render]. cbv iota. exact E.
+  - cbn [render]. cbv iota. unfold wrap.
+    set (X := flat_map (render o false false) (RawText (c0 :: t0) :: mix_toks gs)) in *.
+    change (IOpen $"p" [] :: X ++ [IClose $"p"]) with ([IOpen $"p" []] ++ X ++ [IClose $"p"]).
+    rewrite !serialize_app, E. cbn. rewrite ?app_nil_r, <- ?app_assoc. reflexivity.
+Qed.
+
 Lemma ser_li o sup a ch : ch <> [] ->
   serialize (render o sup false (ListItem a ch)) =
   $"<li>" ++ (if sup && first_is_paragraph ch then [] else [10]) ++ serialize (join_items [nl] (map (render o sup false) ch)) ++
@@ -230,7 +277,7 @@ Proof.
             serialize (join_items [nl] (map (render o sup false) (tok_seq false ts))) = join [10] (map (html_f o sup) ts)).
   { intros ts sup Hne Hall Hd. rewrite tok_seq_plain, map_map. rewrite (serialize_join (fun x => render o sup false (tok_of false x))).
     f_equal. apply map_ext_in. intros x Hx. rewrite forallb_forall in Hall. rewrite Forall_forall in Hd. apply IH; [apply Hd; exact Hx|apply Hall; exact Hx]. }
-  induction t as [| | | mk pad ts | mk pad ts bl next IHn | | | | ]; intros Hi Hw Hd; try discriminate.
+  induction t as [| | | mk pad ts | mk pad ts bl next IHn | | | | | ]; intros Hi Hw Hd; try discriminate.
   - cbn [wf_b] in Hw. repeat rewrite andb_true_iff in Hw. destruct Hw as [[[[[[Hmk Hp1] Hp4] Hs] Hall] Hg] Hth].
     apply marker_ok_reflect in Hmk.
     assert (Hne : ts <> []) by (destruct ts; [discriminate|discriminate]).
@@ -263,11 +310,11 @@ Lemma html_fragment o : forall f t sup, (depth t <= f)%nat -> wf_b t = true ->
   serialize (render o sup false (tok_of false t)) = html_f o sup t.
 Proof.
   induction f as [|f IH]; intros t sup Hd Hw.
-  - destruct t as [c body more|ch n content|ts|mk pad ts|mk pad ts bl next|lv hc hb|rc rn|e0 epre ech edbl ew epost|l0 lpre lw ldest lpost]; [| |cbn [depth] in Hd; lia|cbn [depth] in Hd; lia|cbn [depth] in Hd; lia| |reflexivity|apply html_em|apply html_link].
+  - destruct t as [c body more|ch n content|ts|mk pad ts|mk pad ts bl next|lv hc hb|rc rn|e0 epre ech edbl ew epost|l0 lpre lw ldest lpost|s0 st0' sgs]; [| |cbn [depth] in Hd; lia|cbn [depth] in Hd; lia|cbn [depth] in Hd; lia| |reflexivity|apply html_em|apply html_link|apply html_sent].
     + apply html_para.
     + cbn [tok_of render html_f f_language f_content]. cbn. rewrite ?app_nil_r. reflexivity.
     + apply html_head. cbn [wf_b] in Hw. repeat rewrite andb_true_iff in Hw. destruct Hw as [[[[[[H1 H2] _] _] _] _] _]. apply Nat.leb_le in H1, H2. lia.
-  - destruct t as [c body more|ch n content|ts|mk pad ts|mk pad ts bl next|lv hc hb|rc rn|e0 epre ech edbl ew epost|l0 lpre lw ldest lpost]; [| | | | |apply html_head; cbn [wf_b] in Hw; repeat rewrite andb_true_iff in Hw; destruct Hw as [[[[[[H1 H2] _] _] _] _] _]; apply Nat.leb_le in H1, H2; lia|reflexivity|apply html_em|apply html_link].
+  - destruct t as [c body more|ch n content|ts|mk pad ts|mk pad ts bl next|lv hc hb|rc rn|e0 epre ech edbl ew epost|l0 lpre lw ldest lpost|s0 st0' sgs]; [| | | | |apply html_head; cbn [wf_b] in Hw; repeat rewrite andb_true_iff in Hw; destruct Hw as [[[[[[H1 H2] _] _] _] _] _]; apply Nat.leb_le in H1, H2; lia|reflexivity|apply html_em|apply html_link|apply html_sent].
     + apply html_para.
     + cbn [tok_of render html_f f_language f_content]. cbn. rewrite ?app_nil_r. reflexivity.
     + cbn [wf_b] in Hw. repeat rewrite andb_true_iff in Hw. destruct Hw as [[Hs Hall] Hg].
@@ -310,7 +357,7 @@ Qed.
 
 Lemma html_f_starts o t : exists r, html_f o false t = 60 :: r.
 Proof.
-  destruct t as [c body more|ch n content|ts|mk pad ts|mk pad ts bl next|lv hc hb|rc rn|e0 epre ech edbl ew epost|l0 lpre lw ldest lpost]; cbn [html_f]; try (eexists; reflexivity);
+  destruct t as [c body more|ch n content|ts|mk pad ts|mk pad ts bl next|lv hc hb|rc rn|e0 epre ech edbl ew epost|l0 lpre lw ldest lpost|s0 st0' sgs]; cbn [html_f]; try (eexists; reflexivity);
   (destruct mk as [b|ds d]; cbn [list_open]; [eexists; reflexivity|]; destruct (int_of_digits ds =? 1); eexists; reflexivity).
 Qed.
 
